@@ -18,6 +18,8 @@ type Solver struct {
 	dur   time.Duration
 	log   []string
 	trace bool
+	keep  bool     // keep every line since the last reset (to re-run a query on other solvers)
+	since []string
 }
 
 const prelude = `
@@ -48,10 +50,14 @@ func (s *Solver) send(l string) {
 	if s.trace {
 		s.log = append(s.log, l)
 	}
+	if s.keep {
+		s.since = append(s.since, l)
+	}
 	io.WriteString(s.in, l+"\n")
 }
 
 func (s *Solver) reset() {
+	s.since = s.since[:0]
 	s.send("(reset)")
 	s.send("(set-option :timeout 10000)")
 	s.send(prelude)
@@ -126,3 +132,17 @@ func (s *Solver) model(extra string, terms []string) map[string]string {
 }
 
 func (s *Solver) close() { s.in.Close(); s.cmd.Wait() }
+
+// script returns a self-contained SMT-LIB script asking the query `extra` in the current context
+func (s *Solver) script(extra string) string {
+	var b strings.Builder
+	for _, l := range s.since {
+		if l == "(reset)" || strings.HasPrefix(l, "(get-value") {
+			continue
+		}
+		b.WriteString(l)
+		b.WriteString("\n")
+	}
+	b.WriteString("(push)\n(assert " + extra + ")\n(check-sat)\n(pop)\n")
+	return b.String()
+}
